@@ -1,6 +1,7 @@
 import NeumannModel.Common.Proto
 import NeumannModel.Codec.Model
 import NeumannModel.Codec.Sparse
+import NeumannModel.Codec.VecFormat
 /- Line-protocol driver for the codec model (C20). -/
 open Neumann Neumann.Proto Neumann.Codec
 
@@ -23,6 +24,24 @@ def parseSV (d p v : String) : Option SV :=
   match d.toNat?, parseNats p, parseNats v with
   | some dim, some ps, some vs => some ⟨dim, ps, vs⟩
   | _, _, _ => none
+
+/-- elements of a `cv` line: five comma-separated lists of equal length (bits, as-u64, back bits, whole, gePrev) -/
+def parseElems (b u k w g : String) : Option (List Elem) :=
+  match parseNats b, parseNats u, parseNats k, parseNats w, parseNats g with
+  | some bs, some us, some ks, some ws, some gs =>
+    if bs.length = us.length ∧ us.length = ks.length ∧ ks.length = ws.length ∧ ws.length = gs.length then
+      some ((bs.zip (us.zip (ks.zip (ws.zip gs)))).map
+        (fun (x : Nat × Nat × Nat × Nat × Nat) => ⟨x.1, x.2.1, x.2.2.1, x.2.2.2.1 != 0, x.2.2.2.2 != 0⟩))
+    else none
+  | _, _, _, _, _ => none
+def showCV : CV → String
+  | .raw b => "raw " ++ showNats b
+  | .idList bytes => "idlist " ++ hex bytes
+/-- the back-cast the harness observed, as a table over the ids of this vector (first entry wins) -/
+def backTable (v : List Elem) (id : Nat) : Nat :=
+  match v.find? (fun e => e.asU64 == id) with
+  | some e => e.back
+  | none => 0
 
 def codecStep (_ : Unit) (line : String) : Unit × String :=
   let bad := ((), "bad-op")
@@ -86,6 +105,16 @@ def codecStep (_ : Unit) (line : String) : Unit × String :=
       | some m, some s => ((), showValRes (validate m s)) | _, _ => bad
   | ["sp_validate_old", mx, d, p, v] => match mx.toNat?, parseSV d p v with
       | some m, some s => ((), showValRes (validateOld m s)) | _, _ => bad
+  | ["cv", dl, nm, b, u, k, w, g] => match dl.toNat?, nm.toNat?, parseElems b u k w g with
+      | some d, some n, some v =>
+          let c := compressVector (d != 0) (n != 0) v
+          ((), showCV c ++ " | dec " ++ showNats (decompressVector (backTable v) c))
+      | _, _, _ => bad
+  | ["cv_by_predicate", dl, nm, b, u, k, w, g] => match dl.toNat?, nm.toNat?, parseElems b u k w g with
+      | some d, some n, some v =>
+          let c := compressVectorByPredicate (d != 0) (n != 0) v
+          ((), showCV c ++ " | dec " ++ showNats (decompressVector (backTable v) c))
+      | _, _, _ => bad
   | _ => bad
 
 def main : IO Unit := run codecStep ()
